@@ -41,4 +41,329 @@ theorem update_from_bcast_sim (p : Plane) (m : Msg) (df : Nat) :
   by_cases h1 : df = 4 ∨ df = 20 <;> by_cases h2 : df = 5 ∨ df = 21 <;> by_cases h3 : df = 11 ∨ df = 17 <;>
     simp [h1, h2, h3, planeToT]
 
+theorem update_from_ext_1_4_sim (p : Plane) (m : Msg) (tc st : Nat) :
+    T.Plane.update_from_ext_1_4 (planeToT p) m tc st = planeToT (p.updateExt14 m tc st) := by
+  simp [T.Plane.update_from_ext_1_4, Plane.updateExt14, planeToT]
+
+theorem update_from_ext_20_22_sim (p : Plane) (m : Msg) :
+    T.Plane.update_from_ext_20_22 (planeToT p) m = planeToT (p.updateExt2022 m) := by
+  simp [T.Plane.update_from_ext_20_22, Plane.updateExt2022, planeToT, altitude_gnss_eq, surveillance_status_eq]
+
+theorem update_from_ext_31_sim (p : Plane) (m : Msg) :
+    T.Plane.update_from_ext_31 (planeToT p) m = planeToT (p.updateExt31 m) := by
+  simp [T.Plane.update_from_ext_31, Plane.updateExt31, planeToT, version_eq]
+
+theorem update_from_ext_19_sim (te : TEnv) (p : Plane) (m : Msg) (L : Long m) (st : Nat) :
+    T.Plane.update_from_ext_19 te (planeToT p) m st = planeToT (p.updateExt19 (envOfT te) m st) := by
+  unfold T.Plane.update_from_ext_19 Plane.updateExt19 velocityOf gnssUpdate gnssFromDelta
+  simp only [vertical_rate_eq m L, altitude_delta_eq m L, heading_eq]
+  have ea : (planeToT p).altitude = p.altitude := rfl
+  by_cases h1 : st = 1 <;> by_cases h2 : st = 2 <;> by_cases h3 : st = 3 <;> by_cases h4 : st = 4 <;>
+    cases ha : p.altitude <;> cases hd : altitudeDelta m <;>
+    simp_all [planeToT, envOfT, chSub1, chSub2, chSub3]
+
+theorem update_position_sim (te : TEnv) (p : Plane) (mt form : Nat) :
+    T.Plane.update_position te (planeToT p) mt form = planeToT (p.updatePosition (envOfT te) mt form) := by
+  unfold T.Plane.update_position Plane.updatePosition Plane.posDecode cprLocationArr numSeconds durationMs
+  have g : ((((Int.tdiv (p.cprTime0 - p.cprTime1) 1000).natAbs : Nat) : Int) < (10 : Int))
+      ↔ (Int.tdiv (p.cprTime0 - p.cprTime1) 1000).natAbs < 10 := by omega
+  simp only [planeToT, g]
+  by_cases hg : p.cprLat0 ≠ 0 ∧ p.cprLat1 ≠ 0 ∧ p.cprLon0 ≠ 0 ∧ p.cprLon1 ≠ 0 ∧ p.cprSurf0 = p.cprSurf1
+      ∧ (Int.tdiv (p.cprTime0 - p.cprTime1) 1000).natAbs < 10
+  · rw [if_pos hg, if_pos hg]
+    generalize (if 5 ≤ mt ∧ mt ≤ 8 then cprLocation p.cprLat0 p.cprLat1 p.cprLon0 p.cprLon1 form 4
+      else if 9 ≤ mt ∧ mt ≤ 18 then cprLocation p.cprLat0 p.cprLat1 p.cprLon0 p.cprLon1 form 1 else none) = loc
+    cases loc with
+    | none => simp
+    | some ll =>
+      obtain ⟨la, lo⟩ := ll
+      by_cases hr : (-90 : Rat) ≤ la ∧ la ≤ 90 ∧ (-180 : Rat) ≤ lo ∧ lo ≤ 180
+      · cases ho : te.observer <;> simp [Option.filter, hr, envOfT, ho]
+      · simp [Option.filter, hr]
+  · rw [if_neg hg, if_neg hg]
+
+/-- the four array stores of `update_cpr` / `amend_cpr` are the model's `setCprSlot` -/
+theorem setCprSlot_sim (p : Plane) (tc : Nat) (c : Nat × Nat × Nat) :
+    (let s := planeToT p
+     let s := { s with cpr_lat := arr2Set s.cpr_lat c.1 c.2.1 }
+     let s := { s with cpr_lon := arr2Set s.cpr_lon c.1 c.2.2 }
+     let s := { s with cpr_time := arr2Set s.cpr_time c.1 s.timestamp }
+     { s with cpr_surface := arr2Set s.cpr_surface c.1 (decide (5 ≤ tc ∧ tc ≤ 8)) })
+    = planeToT (p.setCprSlot tc c) := by
+  unfold Plane.setCprSlot arr2Set
+  by_cases h : c.1 = 0 <;> simp [h, planeToT]
+
+theorem update_cpr_sim (te : TEnv) (p : Plane) (m : Msg) (tc : Nat) :
+    T.Plane.update_cpr te (planeToT p) m tc = planeToT (p.storeCpr (envOfT te) tc (cprChecked m)) := by
+  unfold T.Plane.update_cpr Plane.storeCpr cprChecked
+  simp only [cpr_eq]
+  have e : True := trivial
+  have e' : ((cpr m).filter fun (x : Nat × Nat × Nat) => match x with | (cpr_form, _, _) => decide (0 ≤ cpr_form ∧ cpr_form ≤ 1))
+      = ((cpr m).filter fun c => c.1 ≤ 1) := by
+    congr 1; funext x; obtain ⟨a, b, c⟩ := x; simp
+  clear e
+  rw [e']
+  cases (cpr m).filter fun c => decide (c.1 ≤ 1) with
+  | none => rfl
+  | some c =>
+    obtain ⟨f, la, lo⟩ := c
+    simp only
+    have := setCprSlot_sim p tc (f, la, lo)
+    simp only at this
+    rw [this, update_position_sim]
+
+theorem update_from_ext_5_8_sim (te : TEnv) (p : Plane) (m : Msg) (tc : Nat) :
+    T.Plane.update_from_ext_5_8 te (planeToT p) m tc = planeToT (p.updateExt58 (envOfT te) m tc) := by
+  unfold T.Plane.update_from_ext_5_8 Plane.updateExt58
+  simp only [ground_movement_eq, ground_track_eq]
+  rw [← update_cpr_sim]
+  rfl
+
+theorem update_from_ext_9_18_sim (te : TEnv) (p : Plane) (m : Msg) (tc df : Nat) :
+    T.Plane.update_from_ext_9_18 te (planeToT p) m tc df = planeToT (p.updateExt918 (envOfT te) m tc df) := by
+  unfold T.Plane.update_from_ext_9_18 Plane.updateExt918
+  simp only [altitude_eq, surveillance_status_eq]
+  rw [← update_cpr_sim]
+  rfl
+
+theorem lastTypeCode_sim (p : Plane) (tc : Nat) :
+    ({ planeToT p with last_type_code := tc } : T.Plane) = planeToT { p with lastTypeCode := tc } := rfl
+
+theorem updateExtTc_sim (te : TEnv) (p : Plane) (m : Msg) (L : Long m) (df tc st : Nat) :
+    (if 1 ≤ tc ∧ tc ≤ 4 then T.Plane.update_from_ext_1_4 (planeToT p) m tc st
+     else if 5 ≤ tc ∧ tc ≤ 8 then T.Plane.update_from_ext_5_8 te (planeToT p) m tc
+     else if 9 ≤ tc ∧ tc ≤ 18 then T.Plane.update_from_ext_9_18 te (planeToT p) m tc df
+     else if tc = 19 then T.Plane.update_from_ext_19 te (planeToT p) m st
+     else if 20 ≤ tc ∧ tc ≤ 22 then T.Plane.update_from_ext_20_22 (planeToT p) m
+     else if tc = 31 then T.Plane.update_from_ext_31 (planeToT p) m
+     else planeToT p) = planeToT (Plane.updateExtTc (envOfT te) p m df tc st) := by
+  unfold Plane.updateExtTc
+  simp only [update_from_ext_1_4_sim, update_from_ext_5_8_sim, update_from_ext_9_18_sim, update_from_ext_19_sim te _ m L,
+    update_from_ext_20_22_sim, update_from_ext_31_sim]
+  repeat' split
+  all_goals rfl
+
+theorem update_from_ext_sim (te : TEnv) (p : Plane) (m : Msg) (L : Long m) (df : Nat) :
+    T.Plane.update_from_ext te (planeToT p) m df = planeToT (p.updateFromExt (envOfT te) m df) := by
+  have key := updateExtTc_sim te { p with lastTypeCode := (getMessageType m).1 } m L df (getMessageType m).1 (getMessageType m).2
+  unfold T.Plane.update_from_ext Plane.updateFromExt
+  rw [get_message_type_eq]
+  exact key
+
+-- update_from_mode_s: the generated function is a chain of seven blocks over the state (bds, self); each block is
+-- named here (the equation with the generated definition is `rfl`) and simulated by the model's stage separately
+def bdsToT (b : Bds40) : T.SelectedVerticalIntention :=
+  { mcp_selected_altitude := b.mcp, fms_selected_altitude := b.fms, barometric_pressure_setting := b.baro,
+    target_altitude_source := b.source }
+def bds50ToT (b : Bds50) : T.TrackAndTurn :=
+  { roll_angle := b.roll, track_angle := b.track, track_angle_rate := b.rate, ground_speed := b.gs, true_airspeed := b.tas }
+
+theorem map_inv {α β : Type} (f : α → β) (g : β → α) (h : ∀ x, g (f x) = x) (a : Option α) (b : Option β)
+    (e : a.map f = b) : a = b.map g := by
+  subst e; cases a <;> simp [h]
+
+theorem is_bds_1_7_toT (m : Msg) : T.is_bds_1_7 m = (isBds17 m).map capToT :=
+  map_inv capOfT capToT (fun _ => rfl) _ _ (is_bds_1_7_eq m)
+theorem is_bds_4_0_toT (m : Msg) : T.is_bds_4_0 m = (isBds40 m).map bdsToT :=
+  map_inv bds40OfT bdsToT (fun _ => rfl) _ _ (is_bds_4_0_eq m)
+theorem is_bds_5_0_toT (m : Msg) (L : Long m) : T.is_bds_5_0 m = (isBds50 m).map bds50ToT :=
+  map_inv bds50OfT bds50ToT (fun _ => rfl) _ _ (is_bds_5_0_eq m L)
+
+/-- the state of `update_from_mode_s` between two blocks, (bds, self), against the model's (row, still undecided) -/
+def StR (t : (Nat × Nat) × T.Plane) (s : Plane × Bool) : Prop :=
+  t.2 = planeToT s.1 ∧ (s.2 = true ↔ t.1 = (0, 0))
+
+theorem step1_sim (p : Plane) (m : Msg) (df : Nat) (r : Bool) (b : Nat × Nat) :
+    T.Plane.update_from_mode_s.step1 (planeToT p) m df r b
+      = planeToT (if b = (2, 0) then { p with ais := Sq.ais m } else p) := by
+  unfold T.Plane.update_from_mode_s.step1
+  by_cases h : b = (2, 0) <;> simp [h, planeToT]
+
+theorem step2_sim (p : Plane) (m : Msg) (df : Nat) (r : Bool) (b : Nat × Nat) :
+    T.Plane.update_from_mode_s.step2 (planeToT p) m df r b
+      = planeToT (if b = (3, 0) then { p with threatEncounter := Sq.threatEncounter m } else p) := by
+  unfold T.Plane.update_from_mode_s.step2
+  by_cases h : b = (3, 0) <;> simp [h, planeToT, threat_encounter_eq]
+
+theorem step3_sim (p : Plane) (u : Bool) (m : Msg) (df : Nat) (r : Bool) (b : Nat × Nat) (hu : u = true ↔ b = (0, 0)) :
+    StR (T.Plane.update_from_mode_s.step3 (planeToT p) m df r b) (stage17 m (p, u)) := by
+  unfold T.Plane.update_from_mode_s.step3 stage17 StR
+  rw [is_bds_1_7_toT]
+  by_cases hb : b = (0, 0)
+  · have : u = true := hu.mpr hb
+    subst this
+    cases isBds17 m <;> simp [hb, planeToT]
+  · have : u = false := by cases u <;> simp_all
+    subst this
+    simp [hb, hu]
+
+theorem sourceMark_some (s : Nat) :
+    (if s = 1 then Char.ofNat 0x2081 else if s = 2 then Char.ofNat 0x2082 else if s = 3 then Char.ofNat 0x2083 else ' ')
+      = sourceMark (some s) := by
+  unfold sourceMark
+  match s with
+  | 0 => rfl
+  | 1 => rfl
+  | 2 => rfl
+  | 3 => rfl
+  | (s + 4) => simp [chSub1, chSub2, chSub3]
+
+theorem step4_sim (p : Plane) (u : Bool) (m : Msg) (df : Nat) (r : Bool) (b : Nat × Nat) (hu : u = true ↔ b = (0, 0)) :
+    StR (T.Plane.update_from_mode_s.step4 (planeToT p) m df r b) (stage40 m r (p, u)) := by
+  unfold T.Plane.update_from_mode_s.step4 stage40 StR
+  rw [is_bds_4_0_toT]
+  by_cases hb : b = (0, 0)
+  · have : u = true := hu.mpr hb
+    subst this
+    cases h40 : isBds40 m with
+    | none => cases r <;> cases hc : p.cap1.bds40 <;> simp [hb, planeToT, capToT, hc]
+    | some v =>
+      cases r <;> cases hc : p.cap1.bds40 <;> simp [hb, planeToT, capToT, hc, bdsToT]
+      all_goals (rcases v.source with _ | s <;> first | rfl | exact sourceMark_some s)
+  · have : u = false := by cases u <;> simp_all
+    subst this
+    simp [hb, hu]
+
+theorem step5_sim (p : Plane) (u : Bool) (m : Msg) (L : Long m) (df : Nat) (r : Bool) (b : Nat × Nat)
+    (hu : u = true ↔ b = (0, 0)) :
+    StR (T.Plane.update_from_mode_s.step5 (planeToT p) m df r b) (stage50 m r (p, u)) := by
+  unfold T.Plane.update_from_mode_s.step5 stage50 StR
+  rw [is_bds_5_0_toT m L]
+  by_cases hb : b = (0, 0)
+  · have : u = true := hu.mpr hb
+    subst this
+    cases h50 : isBds50 m <;> cases r <;> cases hc : p.cap1.bds50 <;>
+      simp [hb, planeToT, capToT, hc, bds50ToT, chSub5]
+  · have : u = false := by cases u <;> simp_all
+    subst this
+    simp [hb, hu]
+
+theorem step6_sim (p : Plane) (u : Bool) (m : Msg) (L : Long m) (df : Nat) (r : Bool) (b : Nat × Nat)
+    (hu : u = true ↔ b = (0, 0)) :
+    StR (T.Plane.update_from_mode_s.step6 (planeToT p) m df r b) (stage60 m r (p, u)) := by
+  unfold T.Plane.update_from_mode_s.step6 stage60 StR
+  rw [is_bds_6_0_eq m L]
+  by_cases hb : b = (0, 0)
+  · have : u = true := hu.mpr hb
+    subst this
+    cases h60 : isBds60 m with
+    | none => cases r <;> cases hc : p.cap1.bds60 <;> simp [hb, planeToT, capToT, hc]
+    | some v =>
+      cases hbr : v.baroRate <;> cases r <;> cases hc : p.cap1.bds60 <;>
+        simp [hb, planeToT, capToT, hc, bds60ToT, chSub6, chSup1, hbr]
+  · have : u = false := by cases u <;> simp_all
+    subst this
+    simp [hb, hu]
+
+theorem step7_sim (p : Plane) (u : Bool) (m : Msg) (L : Long m) (df : Nat) (r : Bool) (b : Nat × Nat)
+    (hu : u = true ↔ b = (0, 0)) :
+    StR (T.Plane.update_from_mode_s.step7 (planeToT p) m df r b) (stage44 m (p, u)) := by
+  unfold T.Plane.update_from_mode_s.step7 stage44 StR
+  rw [is_bds_4_4_eq m L]
+  by_cases hb : b = (0, 0)
+  · have : u = true := hu.mpr hb
+    subst this
+    cases h44 : isBds44 m with
+    | none => simp [hb, planeToT]
+    | some v => cases hw : v.wind <;> simp [hb, planeToT, meteoToT, hw]
+  · have : u = false := by cases u <;> simp_all
+    subst this
+    simp [hb, hu]
+
+theorem step8_sim (p : Plane) (u : Bool) (m : Msg) (df : Nat) (r : Bool) (b : Nat × Nat) (hu : u = true ↔ b = (0, 0)) :
+    T.Plane.update_from_mode_s.step8 (planeToT p) m df r b = planeToT (stage45 m (p, u)) := by
+  unfold T.Plane.update_from_mode_s.step8 stage45
+  rw [is_bds_4_5_eq]
+  by_cases hb : b = (0, 0)
+  · have : u = true := hu.mpr hb
+    subst this
+    cases h45 : isBds45 m <;> simp [hb, planeToT]
+  · have : u = false := by cases u <;> simp_all
+    subst this
+    simp [hb]
+
+theorem StR_elim {t : (Nat × Nat) × T.Plane} {s : Plane × Bool} (h : StR t s) :
+    ∃ b p u, t = (b, planeToT p) ∧ s = (p, u) ∧ (u = true ↔ b = (0, 0)) := by
+  obtain ⟨b, tp⟩ := t
+  obtain ⟨p, u⟩ := s
+  exact ⟨b, p, u, by simp [StR] at h; simp [h.1], rfl, h.2⟩
+
+theorem stageCoded_sim (p : Plane) (m : Msg) (df : Nat) (r : Bool) :
+    T.Plane.update_from_mode_s.step2 (T.Plane.update_from_mode_s.step1 (planeToT p) m df r (bdsCode m)) m df r (bdsCode m)
+      = planeToT (stageCoded m p).1 ∧ ((stageCoded m p).2 = true ↔ bdsCode m = (0, 0)) := by
+  unfold stageCoded
+  simp [step1_sim, step2_sim]
+
+theorem update_from_mode_s_sim (p : Plane) (m : Msg) (L : Long m) (df : Nat) (r : Bool) :
+    T.Plane.update_from_mode_s (planeToT p) m df r = planeToT (p.updateFromModeS m r) := by
+  unfold T.Plane.update_from_mode_s Plane.updateFromModeS
+  simp only [bds_eq]
+  obtain ⟨ec, hc⟩ := stageCoded_sim p m df r
+  rw [ec]
+  rcases hsc : stageCoded m p with ⟨p0, u0⟩
+  rw [hsc] at hc
+  simp only at hc ⊢
+  obtain ⟨b3, p3, u3, e3, g3, h3⟩ := StR_elim (step3_sim p0 u0 m df r (bdsCode m) hc)
+  rw [e3, g3]
+  simp only
+  obtain ⟨b4, p4, u4, e4, g4, h4⟩ := StR_elim (step4_sim p3 u3 m df r b3 h3)
+  rw [e4, g4]
+  simp only
+  obtain ⟨b5, p5, u5, e5, g5, h5⟩ := StR_elim (step5_sim p4 u4 m L df r b4 h4)
+  rw [e5, g5]
+  simp only
+  obtain ⟨b6, p6, u6, e6, g6, h6⟩ := StR_elim (step6_sim p5 u5 m L df r b5 h5)
+  rw [e6, g6]
+  simp only
+  obtain ⟨b7, p7, u7, e7, g7, h7⟩ := StR_elim (step7_sim p6 u6 m L df r b6 h6)
+  rw [e7, g7]
+  simp only
+  exact step8_sim p7 u7 m df r b7 h7
+
+theorem stamp_sim (p : Plane) (now : Int) (df : Nat) :
+    ({ ({ planeToT p with timestamp := now } : T.Plane) with last_df := df } : T.Plane)
+      = planeToT { p with timestamp := now, lastDf := df } := rfl
+
+/-- `Plane::update` (the -U path, and DF20/21 always): the translated method simulates the model's -/
+theorem update_sim (te : TEnv) (now : Int) (p : Plane) (m : Msg) (df : Nat) (r : Bool)
+    (hL : (df = 17 ∨ df = 18 ∨ df = 20 ∨ df = 21) → Long m) :
+    T.Plane.update now te (planeToT p) m df r = planeToT (p.update (envOfT te) now m df r) := by
+  have key : T.Plane.update now te (planeToT p) m df r =
+      (let s1 := T.Plane.update_from_bcast (planeToT { p with timestamp := now, lastDf := df }) m df
+       let s2 := if df = 17 ∨ df = 18 then T.Plane.update_from_ext te s1 m df else s1
+       if (r = true ∨ s2.capability.1 > 3) ∧ (df = 20 ∨ df = 21) then T.Plane.update_from_mode_s s2 m df r else s2) := rfl
+  rw [key]
+  unfold Plane.update commBGate
+  simp only [update_from_bcast_sim]
+  generalize Plane.updateFromBcast { p with timestamp := now, lastDf := df } m df = p1
+  by_cases h17 : df = 17 ∨ df = 18
+  · have L : Long m := hL (by omega)
+    simp only [h17, if_true, update_from_ext_sim te p1 m L df]
+    generalize Plane.updateFromExt (envOfT te) p1 m df = p2
+    have hd : ¬ (df = 20 ∨ df = 21) := by omega
+    simp [hd]
+  · simp only [h17, if_false]
+    have hc : (planeToT p1).capability.1 = p1.cap0 := rfl
+    by_cases hd : df = 20 ∨ df = 21
+    · have L : Long m := hL (by omega)
+      by_cases hg : r = true ∨ p1.cap0 > 3
+      · rw [if_pos ⟨by rw [hc]; exact hg, hd⟩, update_from_mode_s_sim p1 m L df r]
+        rcases hg with h | h <;> rcases hd with d | d <;> simp [h, d]
+      · rw [if_neg (by rw [hc]; exact fun h => hg h.1)]
+        simp only [not_or] at hg
+        rcases hd with d | d <;> simp [hg, d]
+    · rw [if_neg (fun h => hd h.2)]
+      simp [hd]
+
+theorem new_sim (now : Int) : T.Plane.new now = planeToT (Plane.new now) := rfl
+
+theorem from_message_sim (te : TEnv) (now : Int) (m : Msg) (df icao : Nat) (r : Bool)
+    (hL : (df = 17 ∨ df = 18 ∨ df = 20 ∨ df = 21) → Long m) :
+    T.Plane.from_message now te m df icao r = planeToT (Plane.fromMessage (envOfT te) now m df icao r) := by
+  unfold T.Plane.from_message Plane.fromMessage
+  have e : ({ ({ T.Plane.new now with icao := icao } : T.Plane) with reg := (icaoToCountry icao).2 } : T.Plane)
+      = planeToT { Plane.new now with icao := icao, reg := (icaoToCountry icao).2 } := rfl
+  simp only [e]
+  exact update_sim te now _ m df r hL
+
 end Sq.Bridge
